@@ -9,7 +9,9 @@ use serde_json::{json, Value};
 pub const HEADERS: [&str; 2] = ["Hash: SHA256", "Hash: SHA512"];
 /// payload line templates: plain lines plus every marker wrapped in the neighbouring non-dash contexts
 /// (prefix 'x', leading blank / tab, trailing blank) -- none begins with '-'
-pub const PAYLOAD: [&str; 13] = [
+pub const PAYLOAD: [&str; 15] = [
+    "A: b\r",
+    "\r",
     "",
     "A: b",
     " x",
@@ -150,7 +152,7 @@ impl Prop for C19 {
         "fault_enumeration"
     }
     fn rule(&self, _t: Tier) -> String {
-        "message family = every sequence of <= 2 armour headers x every sequence of <= 3 (thorough 4) payload lines from 13 templates (empty, deb822, indented, header look-alike, Unicode, and all three markers behind a letter / blank / tab or followed by a blank) x every sequence of <= 2 signature lines from 6 (incl. an empty line and marker look-alikes); faults, ALL of them per message: no fault, truncation after every line (0..all), every trailing addition from 4, the payload alone and behind 4 armour-like first lines that are not the signed-message marker (unsigned passthrough), and for the sub-family with <= 1 header, <= 2 payload lines, <= 1 signature line every BYTE prefix; the expected result is computed from the construction offsets, never by re-scanning; all cases distinct; non-trivial = every case with a fault".into()
+        "message family = every sequence of <= 2 armour headers x every sequence of <= 3 (thorough 4) payload lines from 15 templates (two ending in CR, empty, deb822, indented, header look-alike, Unicode, and all three markers behind a letter / blank / tab or followed by a blank) x every sequence of <= 2 signature lines from 6 (incl. an empty line and marker look-alikes); faults, ALL of them per message: no fault, truncation after every line (0..all), every trailing addition from 4, the payload alone and behind 4 armour-like first lines that are not the signed-message marker (unsigned passthrough), and for the sub-family with <= 1 header, <= 2 payload lines, <= 1 signature line every BYTE prefix; the expected result is computed from the construction offsets, never by re-scanning; all cases distinct; non-trivial = every case with a fault".into()
     }
     fn bounds(&self, t: Tier) -> Value {
         json!({"headers": HEADERS, "payload_lines": PAYLOAD, "signature_lines": SIGLINES, "appends": APPENDS, "max_headers": 2, "max_payload_lines": t.pick(3, 4), "max_signature_lines": 2})
